@@ -181,8 +181,15 @@ class C18(Property):
                     del b[rng.randrange(len(b))]
             elif kind == 'ontology':
                 ont_eq = False
+            if kind == 'ontology' and rng.random() < 0.4:
+                # two collections without events whose ontologies differ
+                a, b = [], []
             case = {'et': et, 'a': a, 'b': b, 'ont_eq': ont_eq, 'kind': kind,
                     'repr': rng.choice(['plain', 'plain', 'element', 'parsed'])}
+            if i % 6 == 1:
+                # after the comparisons, the collection is compared with one whose ontology is in conflict with its own (the
+                # same version of the event type, described differently), twice: the refusal must not wear off
+                case['conflict_probe'] = True
             if i % 4 == 0 and ont_eq:
                 # the collection object is reused: compared, changed in place (same length), compared again
                 a2 = json.loads(json.dumps(a))
@@ -204,14 +211,23 @@ class C18(Property):
         a = edxml.EventCollection([gen.build_event(e, case['repr']) for e in case['a']], o)
         b = edxml.EventCollection([gen.build_event(e, case['repr']) for e in case['b']], o2)
 
+        from edxml.error import EDXMLOntologyValidationError
+
         def run(x, y):
             try:
                 return {'ok': bool(x.is_equivalent_of(y))}
             except EDXMLMergeConflictError:
                 return {'err': 'EDXMLMergeConflictError'}
+            except EDXMLOntologyValidationError:
+                return {'err': 'EDXMLOntologyValidationError'}
             except Exception as ex:
                 return {'err': 'foreign:' + type(ex).__name__}
         res = {'ab': run(a, b), 'ba': run(b, a), 'aa': run(a, a)}
+        if case.get('conflict_probe'):
+            o3, t3 = c04.build_ontology(case['et'])
+            t3.set_description('described differently')
+            d = edxml.EventCollection([gen.build_event(e, case['repr']) for e in case['a']], o3)
+            res['conflict'] = [run(a, d), run(a, d), run(d, a)]
         if case.get('a2') is not None:
             try:
                 a.resolve_collisions()
@@ -235,6 +251,9 @@ class C18(Property):
 
     def predict(self, case, replies):
         res = {'ab': replies[0], 'ba': replies[1], 'aa': replies[2]}
+        if case.get('conflict_probe'):
+            # the ontology comparison comes first and raises (C09: a conflict is rejected from both sides, every time)
+            res['conflict'] = [{'err': 'EDXMLOntologyValidationError'}] * 3
         if case.get('a2') is not None:
             res['a2b'], res['ba2'] = replies[3], replies[4]
         return res
@@ -246,6 +265,9 @@ class C18(Property):
             conflict = False
         except Conflict:
             conflict = True
+        if case.get('conflict_probe') and obs.get('conflict') != [{'err': 'EDXMLOntologyValidationError'}] * 3:
+            return ('comparing with a collection whose ontology is in conflict with one\'s own (twice, then from the other side) gives %r: '
+                    'never equivalent, and the refusal must not wear off' % (obs.get('conflict'),))
         for k in ('ab', 'ba'):
             r = obs[k]
             if conflict:
